@@ -8,8 +8,8 @@ from .. import imgcfg
 from ..util import arr_snapshot
 
 ID = "C18"
-CASES = {"quick": 3200, "thorough": 40000}
-MIN_NONTRIVIAL = {"quick": 400, "thorough": 6000}
+CASES = {"quick": 3200, "thorough": 450000}
+MIN_NONTRIVIAL = {"quick": 400, "thorough": 16740}
 REQUIRED = ["imager: state after history == fresh estimator fitted on the last data", "imager: fit_transform == fit then transform (fresh twin)",
             "imager: transform repeatable, state untouched", "imager: collection mapped element by element, in order",
             "landscaper: state after history == fresh estimator fitted on the last data",
@@ -21,7 +21,7 @@ RULE = ("histories of 2-8 calls on one live estimator drawn from fit / transform
         "data. non-trivial = history with >=2 fits on data of different extents followed by a transform; distinct = history digest")
 ASSUMPTIONS = ["imager outputs compared at 1e-9*scale (each setter call re-pads the ranges by ~1e-17); landscaper outputs exactly",
                "'user-fixed' = constructor arguments and explicit attribute assignments; everything else is learned by fit",
-               "imager data always spans a positive extent in birth and persistence"]
+               "imager data usually spans a positive extent in birth and persistence; 12% of the fits use data without extent along one axis, for which only agreement with a fresh estimator is demanded"]
 TECHNIQUE = "runtime monitoring: call-history recorder on live estimators checked against a fresh-estimator reference model"
 
 
@@ -36,9 +36,18 @@ def quiet():
 
 
 # ---------------------------------------------------------------------------------------------------------------
-def gen_dataset(rng, lo, hi, pmax, k=None):
-    """collection of diagrams (birth-death) with births in [lo,hi] and persistence in (0,pmax]"""
+def gen_dataset(rng, lo, hi, pmax, k=None, degenerate=None):
+    """collection of diagrams (birth-death) with births in [lo,hi] and persistence in (0,pmax]; `degenerate` = "birth" /
+    "pers" makes every point share that coordinate (zero extent along one axis: H0 diagrams all born at 0, ...)"""
     k = k or int(rng.integers(1, 5))
+    if degenerate:
+        out = []
+        for _ in range(k):
+            n = int(rng.integers(1, 5))
+            b = np.full(n, lo) if degenerate == "birth" else rng.uniform(lo, hi, n)
+            p = np.full(n, pmax) if degenerate == "pers" else rng.uniform(0.05 * pmax, pmax, n)
+            out.append(np.column_stack([b, b + p]))
+        return out
     out = []
     for _ in range(k):
         n = int(rng.integers(2, 7))
@@ -61,6 +70,13 @@ def close_pub(a, b, tol):
         if any(abs(x - y) > tol for x, y in zip(a[key], b[key])):
             return False
     return abs(a["pixel_size"] - b["pixel_size"]) <= tol and abs(a["width"] - b["width"]) <= tol and abs(a["height"] - b["height"]) <= tol
+
+
+def attempt(f):
+    try:
+        return ("ok", f())
+    except Exception as e:
+        return ("raised", type(e).__name__)
 
 
 def imgs_close(a, b, tol):
@@ -95,9 +111,24 @@ def imager_case(ctx, k, rng):
             op = str(rng.choice(["fit", "fit", "transform", "fit_transform", "set_pixel", "set_birth", "set_pers", "transform"]))
             if op in ("fit", "fit_transform"):
                 e = extents[int(rng.integers(0, len(extents)))]
-                X = gen_dataset(rng, *e)
-                log.append({"op": op, "extent": e, "n": len(X)})
+                deg = str(rng.choice(["birth", "pers"])) if rng.random() < 0.12 else None
+                X = gen_dataset(rng, *e, degenerate=deg)
+                log.append({"op": op, "extent": e, "n": len(X), "degenerate": deg})
                 ctx.ran()
+                if deg:
+                    # data without extent along one axis: whatever the estimator does with it (zero-pixel axis, error), a
+                    # fresh estimator given the same data must do the same - the past must not show
+                    live = attempt(lambda: (P.fit(X, skew=True), imager_public(P))[1])
+                    fresh = Imager(**{**ctor, "pixel_size": P.pixel_size})
+                    ref = attempt(lambda: (fresh.fit(X, skew=True), imager_public(fresh))[1])
+                    same = (live[0] == ref[0]) and (live[0] == "raised" and live[1] == ref[1] or
+                                                     live[0] == "ok" and close_pub(live[1], ref[1], 1e-9 * tolscale))
+                    ctx.check("imager: state after history == fresh estimator fitted on the last data", same, step=t,
+                              degenerate=deg, live=live, fresh=ref)
+                    if live[0] != "ok" or 0 in live[1]["resolution"]:
+                        return          # a zero-pixel imager: nothing further to compare in this history
+                    last_fit = (X, P.pixel_size); after = []; fits_ext.append(e)
+                    continue
                 if op == "fit":
                     P.fit(X, skew=True)
                 else:
